@@ -36,34 +36,8 @@ Lemma registry_collide_ok : collide_ok registry = true.
 Proof. vm_compute. reflexivity. Qed.
 
 (* ---- emodulus: documented precedence C > B > A decides the recipe ---- *)
-Definition combo := (bool * bool * bool * bool * bool * bool)%type.
-
-Definition prec_ok (medv : Z) (c : combo) : bool :=
-  let '(lut, med, tmp, visc, vm, ht) := c in
-  sel_scenario registry (emod_base lut med tmp visc vm ht medv)
-  =? spec_scenario lut med tmp visc ht.
-
-Definition combo_eqb (x y : combo) : bool :=
-  let '(a, b, c, d, e, f) := x in
-  let '(a', b', c', d', e', f') := y in
-  eqb a a' && eqb b b' && eqb c c' && eqb d d' && eqb e e' && eqb f f'.
-
-Lemma combo_eqb_eq : forall x y, combo_eqb x y = true -> x = y.
-Proof.
-  intros [[[[[a b] c] d] e] f] [[[[[a' b'] c'] d'] e'] f'].
-  destruct a, a', b, b', c, c', d, d', e, e', f, f';
-    simpl; intros H; try discriminate H; reflexivity.
-Qed.
-
-Lemma bools6_all : forall c : combo, In c bools6.
-Proof.
-  intros c.
-  assert (H : existsb (combo_eqb c) bools6 = true).
-  { destruct c as [[[[[a b] c] d] e] f].
-    destruct a, b, c, d, e, f; vm_compute; reflexivity. }
-  apply existsb_exists in H. destruct H as [x [Hin Heq]].
-  apply combo_eqb_eq in Heq. now subst.
-Qed.
+Lemma eqb_true_eq : forall x y : Z, (x =? y) = true -> x = y.
+Proof. intros x y H. now apply Z.eqb_eq. Qed.
 
 Lemma emodulus_precedence :
   forall (lut med tmp visc vm ht : bool) (medv : Z),
@@ -71,43 +45,35 @@ Lemma emodulus_precedence :
     sel_scenario registry (emod_base lut med tmp visc vm ht medv)
     = spec_scenario lut med tmp visc ht.
 Proof.
-  intros lut med tmp visc vm ht medv Hm.
-  assert (H : forallb (prec_ok 1) bools6 && forallb (prec_ok 4) bools6 = true)
-    by (vm_compute; reflexivity).
-  apply andb_prop in H as [H1 H4]. rewrite forallb_forall in H1, H4.
-  pose proof (bools6_all (lut, med, tmp, visc, vm, ht)) as Hin.
-  destruct Hm as [-> | ->].
-  - specialize (H1 _ Hin). unfold prec_ok in H1. now apply Z.eqb_eq in H1.
-  - specialize (H4 _ Hin). unfold prec_ok in H4. now apply Z.eqb_eq in H4.
+  intros lut med tmp visc vm ht medv Hm. apply eqb_true_eq.
+  destruct Hm as [-> | ->]; destruct lut, med, tmp, visc, vm, ht;
+    vm_compute; reflexivity.
 Qed.
 
 (* the inputs compute_emodulus really uses are those of the chosen recipe's
    scenario -- provided no viscosity is given next to a medium *)
-Definition taken (c : combo) (medv : Z) : Z :=
-  let '(lut, med, tmp, visc, vm, ht) := c in
+Definition taken (lut med tmp visc vm ht : bool) (medv : Z) : Z :=
   nth 2 (emod_row registry (lut, med, tmp, visc, vm, ht, medv)) 0.
 
-Definition taken_guard (c : combo) : bool :=
-  let '(lut, med, tmp, visc, vm, ht) := c in negb (visc && med).
-
 Lemma emodulus_inputs_partial :
-  forall c : combo, taken_guard c = true ->
-    let '(lut, med, tmp, visc, vm, ht) := c in
+  forall (lut med tmp visc vm ht : bool),
+    visc && med = false ->
     spec_scenario lut med tmp visc ht <> 0 ->
-    taken c 1 = spec_scenario lut med tmp visc ht.
+    taken lut med tmp visc vm ht 1 = spec_scenario lut med tmp visc ht.
 Proof.
-  intros c.
-  assert (H : forallb (fun c : combo =>
-     let '(lut, med, tmp, visc, vm, ht) := c in
-     negb (taken_guard c) || (spec_scenario lut med tmp visc ht =? 0)
-     || (taken c 1 =? spec_scenario lut med tmp visc ht)) bools6 = true)
-    by (vm_compute; reflexivity).
-  rewrite forallb_forall in H. specialize (H c (bools6_all c)).
-  destruct c as [[[[[lut med] tmp] visc] vm] ht]. intros Hg Hs.
-  rewrite Hg in H. simpl in H.
-  destruct (spec_scenario lut med tmp visc ht =? 0) eqn:E.
-  - apply Z.eqb_eq in E. contradiction.
-  - simpl in H. now apply Z.eqb_eq in H.
+  intros lut med tmp visc vm ht Hg Hs. apply eqb_true_eq.
+  destruct lut, med, tmp, visc, vm, ht;
+    try discriminate Hg; try (exfalso; apply Hs; reflexivity);
+    vm_compute; reflexivity.
+Qed.
+
+Lemma emodulus_inputs_refuted :
+  exists (lut med tmp visc vm ht : bool),
+    spec_scenario lut med tmp visc ht <> 0 /\
+    taken lut med tmp visc vm ht 1 <> spec_scenario lut med tmp visc ht.
+Proof.
+  exists true, true, true, true, true, false. vm_compute.
+  split; discriminate.
 Qed.
 
 (* finding C06-emodulus-available-unreadable: case-A ingredients plus a
